@@ -131,6 +131,22 @@ CHECKS = {
          "pairs are swept completely.",
          "Host build; callbacks always report success; items of the current frame at reset accepted either way.",
          "DESIGN.md 2/C08", "cbuild"),
+ "C01": ("exploration",
+         "bounded-exhaustive enumeration of valid TRXD messages (complete small-dimension product, each wide field swept over its complete range one at a time, walking-bit burst patterns) through gen_msg -> parse_msg",
+         "3.5e6 (quick) / 7.6e7 (thorough) distinct messages: class x version x legacy x NOPE x all modulations x TSC sets x TSC x TN completely, attenuation/RSSI/C-I "
+         "over their complete ranges, ToA256 over all 65 536 values, FN over a 6 312-value carry/boundary set (thorough: all 2 715 648), a walking 1 and 0 through "
+         "every bit position and every soft-bit value at three positions; every field and every burst bit compared after the round trip; legacy-padded v0 "
+         "compared with unpadded; all four translation tables checked entry by entry.",
+         "Wide fields are swept one at a time at representative points of the small-dimension product (joint product not enumerated; C04 pins every octet independently).",
+         "DESIGN.md 2/C01", "enum"),
+ "C04": ("exploration",
+         "the C01 enumeration compared octet by octet with an independent layout encoder/decoder, a mutation neighbourhood of every accepted datagram, and a differential run through trxcon's real trx_if.c",
+         "Every enumerated message's octets must equal the reference layout's (vlib/ref/trxd.py); 7e5 (quick) / 9e6 (thorough) mutated datagrams (every header octet "
+         "to each of 256 values, truncations, extensions) must be read per the layout whenever the parser accepts them; every v0 TRX->L1 datagram the toolkit "
+         "produces is fed to trxcon's trx_data_rx_cb (5e5 / 6e6 vectors) and must yield the same fn/tn/rssi/toa/soft bits, and every burst request given to "
+         "trxcon's trx_if_handle_phyif_burst_req must be parsed back by TxMsg to the same values.",
+         "Reference layout transcribed from the property text; trxcon built with a stand-in for the system libosmocore fsm/socket layer; AB modulation code read with a TSC-set bit (see DESIGN 4 row 10).",
+         "DESIGN.md 2/C04", "enum+cbuild"),
 }
 
 PENDING = {}
